@@ -13,6 +13,8 @@ for name in sorted(os.listdir(os.path.join(ROOT, "seeded"))):
     codes = det.get("exit_codes", [])
     first = (det.get("first_violation", "") or "").replace("violation ", "").split(":")[0][:60]
     hist = "yes — " + m["history"].split(":")[0][:110] if m.get("history") else "no"
+    if m.get("history", "").startswith("caught by the check as built"):
+        hist = "no — " + m["history"][:110]
     rows.append(f"| {name} | {m['property']} | {m.get('needs', '')[:150].replace('|', '/')} | {verdict} {codes} `{first}` | {hist} |")
 table = ("| change | property | what it needs to manifest | detection by the property's quick tier (exit codes per seed, first signature) | machinery changed because of it |\n"
          "|---|---|---|---|---|\n" + "\n".join(rows))
